@@ -6,10 +6,64 @@ import json
 from . import tlc
 
 
+CASE_TIMEOUT = float(__import__("os").environ.get("VERIF_CASE_TIMEOUT", "30"))
+
+
+_SICK = 0
+
+
+class CaseTimeout(BaseException):
+    pass
+
+
+def guarded(fn, case, secs=None):
+    """runs one case under a watchdog: a call of the implementation that does not return within `secs` is interrupted (repeatedly, executors catch
+    BaseException per step) and the case is reported as {"tid", "timeout": 1}; the runner turns it into a `terminates` violation"""
+    import signal
+    global _SICK
+    if _SICK >= 3:
+        # this worker has already met three calls that do not return: the rest of its share is not attempted (each would cost the full timeout)
+        return {"tid": case["tid"], "timeout": 1, "skipped": 1}
+    hit = {"n": 0}
+
+    def onalarm(sig, frm):
+        hit["n"] += 1
+        raise CaseTimeout()
+    old = signal.signal(signal.SIGALRM, onalarm)
+    signal.setitimer(signal.ITIMER_REAL, secs or CASE_TIMEOUT, 0.5)
+    try:
+        out = fn(case)
+    except CaseTimeout:
+        out = None
+    finally:
+        signal.setitimer(signal.ITIMER_REAL, 0)
+        signal.signal(signal.SIGALRM, old)
+    if hit["n"]:
+        _SICK += 1
+        return {"tid": case["tid"], "timeout": 1}
+    return out
+
+
 def _call(args):
     modname, fn, case = args
     mod = importlib.import_module(modname)
-    return getattr(mod, fn)(case)
+    return guarded(getattr(mod, fn), case)
+
+
+def split_timeouts(prop, cases, logs, op_of=None):
+    """-> (cases, logs) without the timed-out ones, and one violation per timed-out case"""
+    viol = []
+    kc, kl = [], []
+    for c, lg in zip(cases, logs):
+        if isinstance(lg, dict) and lg.get("timeout"):
+            if lg.get("skipped"):
+                continue
+            viol.append({"clause": f"P:{prop}:terminates", "op": (op_of(c) if op_of else "call"), "where": "timeout", "step": 1, "detail": {"exc": "timeout"},
+                         "behaviour": {k: w for k, w in c.items() if k != "tid"}})
+        else:
+            kc.append(c)
+            kl.append(lg)
+    return kc, kl, viol
 
 
 def execute_all(modname, fn, cases, procs=16):
@@ -24,8 +78,9 @@ def run_family(ctx, prop, cases, exec_mod, validator, cfg, op_of, where_of, beh_
     for n, c in enumerate(cases):
         c["tid"] = n + 1
     logs = execute_all(exec_mod, exec_fn, cases)
+    cases, logs, tviol = split_timeouts(prop, cases, logs, lambda c: str(c.get("op", c.get("kind", "call"))))
     verdicts, vstats = tlc.validate(validator, cfg, logs, name=name or prop)
-    violations, devs, clauses = [], {}, {}
+    violations, devs, clauses = list(tviol), {}, {}
     events = 0
     distinct = set()
     for case, lg in zip(cases, logs):
@@ -69,7 +124,10 @@ def replay_family(ctx, prop, rec, exec_mod, validator, cfg, exec_fn="execute"):
     case = dict(rec["behaviour"])
     case["tid"] = 1
     mod = importlib.import_module(exec_mod)
-    lg = getattr(mod, exec_fn)(case)
+    lg = guarded(getattr(mod, exec_fn), case)
+    if lg.get("timeout"):
+        print(f"VIOLATION property={prop} replay=(replayed: the call does not terminate)")
+        return 1
     verdicts, _ = tlc.validate(validator, cfg, [lg], name=prop + "_replay", shards=1)
     print(json.dumps(verdicts[1]["fails"]))
     bad = [f for f in verdicts[1]["fails"] if f[1].startswith("P:" + prop)]
